@@ -99,7 +99,7 @@ fn tcp_capture(connect: impl FnOnce(SocketAddr) -> Result<(), String>) -> Result
         }
         if let Some(mut s) = conn {
             let _ = s.set_nonblocking(false);
-            let _ = s.set_read_timeout(Some(Duration::from_millis(400)));
+            let _ = s.set_read_timeout(Some(Duration::from_millis(2500)));
             let mut buf = [0u8; 4096];
             loop {
                 match s.read(&mut buf) {
@@ -176,7 +176,7 @@ pub fn cmd_builder_replay(a: &HashMap<String, String>) -> i32 {
                     })
                 } else {
                     let peer = UdpSocket::bind("127.0.0.1:0").unwrap();
-                    let _ = peer.set_read_timeout(Some(Duration::from_millis(300)));
+                    let _ = peer.set_read_timeout(Some(Duration::from_millis(2500)));
                     let addr = peer.local_addr().unwrap();
                     let r = apply(Builder::default(), &calls, addr, local).and_then(|b| {
                         if flavor == "blocking" {
